@@ -116,12 +116,84 @@ def seq_to_set(v: Val) -> Val:
     return Val(T.Set(t.elem), z3.Lambda([x], seq_contains_elem(lift(v), x)))
 
 
+def carrier_info(v: Val):
+    """the IterInfo behind an iteration carrier (`d.keys()`, `d.items()`, `range(n)`, `enumerate(..)`, `zip(..)`), else None"""
+    if v.is_py and isinstance(v.py, tuple) and len(v.py) == 3 and v.py[0] == "iterinfo":
+        return v.py[1]
+    return None
+
+
+def _item_val(item: Val) -> Val:
+    """an iteration item as a data value (python-level tuples of values become Tuple values)"""
+    if item.ty is PYOBJ and item.is_py and isinstance(item.py, tuple):
+        parts = [_item_val(x if isinstance(x, Val) else Val.const(x)) for x in item.py]
+        t = T.Tuple(*[p.ty for p in parts])
+        return Val(t, t.sort().mk(*[lift(p) for p in parts]))
+    if item.ty is PYOBJ:
+        raise Unsupported("iteration item is a python-level object")
+    return item
+
+
+def carrier_to_list(ex, st, info, node) -> Val:
+    """list(<iterable view>): the items in iteration order."""
+    if info.kind == "concrete":
+        return Val(PYOBJ, None, list(info.items), True)
+    if info.kind == "set":
+        raise Unsupported("list() of a set-like view", node)
+    meta = getattr(info, "dict_items", None)
+    if meta is not None and meta[2] == "keys":
+        return Val(T.List(meta[0].k), meta[0].sort().keys(meta[1]))
+    if info.seqval is not None and meta is None:
+        return info.seqval
+    i = z3.Int(fresh_name("li"))
+    it = _item_val(info.item(i))
+    r = fresh(T.List(it.ty), "aslist")
+    st.assume(z3.Length(r) == info.n)
+    st.assume(z3.ForAll([i], z3.Implies(z3.And(i >= 0, i < info.n), r[i] == lift(it))))
+    return Val(T.List(it.ty), r)
+
+
+def carrier_to_set(ex, st, info, node) -> Val:
+    """set(<iterable view>): the set of its items."""
+    if info.kind == "concrete":
+        return _set(ex, st, [Val(PYOBJ, None, list(info.items), True)], {}, node)
+    if info.kind == "set":
+        return Val(T.Set(info.elem), info.set_term)
+    meta = getattr(info, "dict_items", None)
+    if meta is not None:
+        dt, d, mode = meta
+        s = dt.sort()
+        if mode == "keys":
+            return Val(T.Set(dt.k), s.dom(d))
+        k = fresh(dt.k, "vk")
+        if mode == "values":
+            y = fresh(dt.v, "vy")
+            return Val(T.Set(dt.v), z3.Lambda([y], z3.Exists([k], z3.And(z3.Select(s.dom(d), k), z3.Select(s.map(d), k) == y))))
+        pt = T.Tuple(dt.k, dt.v)
+        pr = fresh(pt, "vp")
+        ps = pt.sort()
+        return Val(T.Set(pt), z3.Lambda([pr], z3.And(z3.Select(s.dom(d), ps.accessor(0, 0)(pr)), z3.Select(s.map(d), ps.accessor(0, 0)(pr)) == ps.accessor(0, 1)(pr))))
+    if info.seqval is not None:
+        return seq_to_set(info.seqval)
+    i = z3.Int(fresh_name("si"))
+    it = _item_val(info.item(i))
+    y = fresh(it.ty, "sy")
+    return Val(T.Set(it.ty), z3.Lambda([y], z3.Exists([i], z3.And(i >= 0, i < info.n, lift(it) == y))))
+
+
 # ---- builtins ---------------------------------------------------------------------------------
 
 
 @builtin("builtins.len", "len(c) is the number of elements")
 def _len(ex, st, args, kwargs, node):
     (v,) = args
+    info = carrier_info(v)
+    if info is not None:
+        if info.kind == "concrete":
+            return Val.const(len(info.items))
+        if info.kind == "indexed":
+            return Val(T.INT, info.n)
+        raise Unsupported("len() of a set-like view", node)
     if isinstance(v.ty, T.Ref):
         cs = ex.class_of(v.ty)
         if cs.length is None:
@@ -142,6 +214,10 @@ def _sorted(ex, st, args, kwargs, node):
         raise Unsupported("sorted(key=/reverse=)", node)
     if is_const(v):
         return Val.const(sorted(v.py))
+    info = carrier_info(v)
+    if info is not None:
+        meta = getattr(info, "dict_items", None)
+        v = carrier_to_set(ex, st, info, node) if (meta is not None and meta[2] == "keys") else carrier_to_list(ex, st, info, node)
     t = v.ty
     if isinstance(t, T.Set):
         return Val(T.List(t.elem), sorted_fn(t, t.elem)(lift(v)))
@@ -162,6 +238,9 @@ def _set(ex, st, args, kwargs, node):
     (v,) = args
     if is_const(v):
         return Val.const(set(v.py))
+    info = carrier_info(v)
+    if info is not None:
+        return carrier_to_set(ex, st, info, node)
     t = v.ty
     if isinstance(t, T.Set):
         return v
@@ -193,6 +272,9 @@ def _list(ex, st, args, kwargs, node):
     if not args:
         return Val(PYOBJ, None, [], True)
     (v,) = args
+    info = carrier_info(v)
+    if info is not None:
+        return carrier_to_list(ex, st, info, node)
     if v.is_py and isinstance(v.py, (list, tuple, range)):
         return Val(PYOBJ, None, list(v.py), True) if ops._has_val(v.py) else Val.const(list(v.py))
     t = v.ty
@@ -215,6 +297,9 @@ def _tuple(ex, st, args, kwargs, node):
     if not args:
         return Val.const(())
     (v,) = args
+    info = carrier_info(v)
+    if info is not None:
+        v = carrier_to_list(ex, st, info, node)
     if v.is_py and isinstance(v.py, (list, tuple)):
         return Val(PYOBJ, None, tuple(v.py), True) if ops._has_val(v.py) else Val.const(tuple(v.py))
     if isinstance(v.ty, T.List):
